@@ -71,8 +71,9 @@ type Program struct {
 	// E3 (crash) programs: -1 = enumerate every I/O boundary, otherwise the one crash point to run
 	CrashAt int `json:"crashat,omitempty"`
 	// disk faults injected through the VFS shim into on-disk sequential runs
-	Faults []FaultSpec `json:"faults,omitempty"`
-	Torn   bool        `json:"torn,omitempty"`
+	Faults  []FaultSpec `json:"faults,omitempty"`
+	Backlog int         `json:"backlog,omitempty"` // E4: number of events that pile up behind a stalled consumer
+	Torn    bool        `json:"torn,omitempty"`
 }
 
 // FaultSpec plants one disk fault: before operation AtOp starts, a one-shot fault of the given
@@ -207,6 +208,13 @@ func retag(tags []string, op *Op, family string, what string) []string {
 func (e *e1) key(coll int, key string) string { return fmt.Sprintf("%d/%s", coll, key) }
 
 func (e *e1) resolveCas(op *Op, d Doc) {
+	if op.ExpKind == 3 {
+		if d.HasBody && d.Exp != 0 && !d.ExpAny {
+			op.ExpArg = d.Exp
+		} else {
+			op.ExpKind = 0
+		}
+	}
 	hist := e.casHist[e.key(op.Coll, op.Key)]
 	switch op.CasMode {
 	case "", "zero":
@@ -229,6 +237,21 @@ func (e *e1) resolveCas(op *Op, d Doc) {
 	}
 	if op.Kind == "SetWithMeta" || op.Kind == "DeleteWithMeta" {
 		op.NewCas = e.maxCas + 1 + uint64(op.Amt)
+		if op.Amt%11 == 5 && d.Exists && d.Cas != 0 {
+			// the caller-chosen CAS is exactly the one the document already carries (a replayed mutation)
+			op.NewCas = d.Cas
+			e.probe("withmeta.same-cas-as-stored")
+		} else if op.Amt%11 == 6 && op.Handle != 9 {
+			// ... or exactly the one the same key carries in ANOTHER collection (one source document
+			// replicated into two collections)
+			for oc, odocs := range e.docs {
+				if od, ok := odocs[op.Key]; ok && oc != op.Coll && od.Cas != 0 {
+					op.NewCas = od.Cas
+					e.probe("withmeta.same-cas-other-collection")
+					break
+				}
+			}
+		}
 		if op.Amt%5 == 4 && op.Handle != 9 {
 			// the caller-chosen CAS is one that ANOTHER key of the collection carried earlier (as a
 			// replicated mutation may): conditional writes holding that stale CAS must still fail
